@@ -408,6 +408,7 @@ impl rand_core::RngCore for TranscriptRng {
         let dest_len = encode_usize_as_u32(dest.len());
         self.strobe.meta_ad(&dest_len, false);
         self.strobe.prf(dest, false);
+        crate::trace::rng_fault(dest);
         crate::trace::emit(crate::trace::Event::RngOut {
             rid: self.rid,
             bytes: dest.to_vec(),
